@@ -97,7 +97,7 @@ def dup_kernel():
     if loop is None:
         raise AssertionError("anchor missing: `for tier in tgAsDict['tiers']` loop in openTextgrid")
     i, st = loop
-    pre = [s for s in fdef.body[:i] if isinstance(s, ast.Assign) and "tierNames" in ast.unparse(s)]
+    pre = [s for s in fdef.body[:i] if isinstance(s, (ast.Assign, ast.AnnAssign)) and not any(isinstance(c, ast.Call) for c in ast.walk(s))]  # plain initialisations (tierNames = [])
     code = "def k(tgAsDict, duplicateNamesMode):\n%s\n    return tgAsDict\n" % textwrap.indent("\n".join(ast.unparse(x) for x in pre + [st]), "    ")
     ns = {}
     exec(compile(code, "<duplicate-name slice of openTextgrid>", "exec"), func.__globals__, ns)
